@@ -4,6 +4,7 @@ from __future__ import annotations
 
 import os
 import signal
+import time
 import subprocess
 import sys
 import warnings
@@ -197,6 +198,49 @@ def neighbour_plans(order):
     raise RuntimeError("neighbour plans failed: " + r.stderr[-400:])
 
 
+def deep_case(case, common, out):
+    """simplify() of deep chains of SHARED sub-expressions: the number of rewrite steps stays polynomial in the
+    number of nodes (memoisation of the per-pass results and of the dependency look-ups)."""
+    global _counter
+    if _counter is None:
+        _counter = _Steps()
+    kind, depth = case
+    tabs = C.tables(12)
+    ctx = C.build_context(tabs, C.Layout("np", 3, True), lazy=True)
+    if kind == "assign-chain":
+        q = C.assign_chain(ctx.df[["a", "u"]], depth)
+    else:
+        q = ctx.df[ctx.df.a >= 0][C.mask_chain(ctx.df, depth)]
+    nodes = sum(1 for _ in N.iter_nodes(q.expr))
+    budget = 40 * nodes + 500
+    cid = f"{kind}|depth={depth}|nodes={nodes}"
+    _counter.steps = 0
+    signal.signal(signal.SIGALRM, _alarm)
+    signal.alarm(30)
+    t0 = time.time()
+    try:
+        q.simplify()
+    except _Timeout:
+        viol(out, "C19.simplify:deep-shared-chain-within-watchdog", cid, f"simplify() still running after 30 s ({_counter.steps} rewrite steps, budget {budget})", {"kind": "call", "module": "vf.props.C19", "func": "replay_deep", "args": {"case": list(case)}})
+        return
+    finally:
+        signal.alarm(0)
+    bump(out, "C19.simplify:steps-polynomial-on-shared-chains", cid, rule="chains of dependent assign() calls / of reused boolean masks (shared sub-expressions, depth 8..32): rewrite steps <= 40 * nodes + 500 and 30 s watchdog")
+    if _counter.steps > budget:
+        viol(out, "C19.simplify:step-budget-on-shared-chains", cid, f"{_counter.steps} rewrite steps for {nodes} nodes (budget {budget}), {time.time() - t0:.1f}s", {"kind": "call", "module": "vf.props.C19", "func": "replay_deep", "args": {"case": list(case)}})
+
+
+def replay_deep(case):
+    from vf.rt.pool import _init
+
+    _init()
+    out = {"counts": {}, "violations": [], "samples": [], "errors": [], "notes": {}}
+    deep_case(tuple(case), {}, out)
+    for v in out["violations"]:
+        print(v["contract"], "|", v["signature"], "|", v["detail"][:300])
+    return bool(out["violations"])
+
+
 def replay_case(case):
     from vf.rt.pool import _init
 
@@ -242,6 +286,7 @@ def run(run):
                     run.violation("C19.xprocess:fused-plan-name-depends-on-process", f"{cid}|hashseed 0 vs {seed}", f"optimized(fuse=True) {nm[2]} vs {other[cid][2]}", {"kind": "none"})
     except Exception as ex:
         run.errors.append("cross-process naming: " + repr(ex)[:300])
+    run_cases(run, "vf.props.C19", "deep_case", [("assign-chain", 8), ("assign-chain", 13), ("mask-chain", 16), ("mask-chain", 32)], {}, chunk=1)
     # the plan of a query does not depend on which NEIGHBOURING query (same column, other knob) was planned before it
     try:
         fwd = neighbour_plans(NEIGHBOURS)
